@@ -504,3 +504,68 @@ def c21_shiftshape(R):
             construct=f"_rshift_arithmetic: sign fill of the {'lower' if 'lower' in own else 'upper'} bound",
         )
     R.need(n3 >= 2, f"_rshift_arithmetic: only {n3} sign fills found")
+
+
+_WIDEN_EXEMPT = {
+    "agnostic_extend": "documented signedness-agnostic approximation for operands of different widths (not one of the "
+    "operations of the property; well-typed expressions never reach it)",
+    "__init__": "construction",
+}
+
+
+@rule(
+    "C21.widenbits",
+    props=("C21", "C24"),
+    floor=3,
+    family="GRD",
+    desc="the width of an existing interval object is overwritten (`x._bits = n`) only where the object cannot wrap past "
+    "zero - it is a south-pole piece, a single value, or a no-wrap fact dominates: on a larger circle a wrapping pair of "
+    "bounds keeps neither its members nor, with a stride that does not divide 2**w, its lattice (zero / sign extension, "
+    "concatenation)",
+)
+def c21_widenbits(R):
+    tree = R.tree
+    m = tree.mod(SI)
+    n = 0
+    for name, raw in util.methods_of(tree.cls(SI, "StridedInterval")).items():
+        if "_bits" not in ast.unparse(raw):
+            continue
+        fn = tree.func_inlined(SI, f"StridedInterval.{name}")
+        defs = {}
+        pieces = set()
+        for st in ast.walk(fn):
+            if isinstance(st, ast.Assign) and len(st.targets) == 1 and isinstance(st.targets[0], ast.Name):
+                defs.setdefault(st.targets[0].id, []).append(st.value)
+            if isinstance(st, (ast.For, ast.comprehension)) and isinstance(st.target, ast.Name) and re.search(r"\._(s|p)split\(\)$", ast.unparse(st.iter)):
+                pieces.add(st.target.id)
+        for st in walk_no_nested(fn):
+            tgt = st.targets[0] if isinstance(st, ast.Assign) and len(st.targets) == 1 else (st.target if isinstance(st, ast.AugAssign) else None)
+            if not (isinstance(tgt, ast.Attribute) and tgt.attr == "_bits" and isinstance(tgt.value, ast.Name)):
+                continue
+            n += 1
+            if name in _WIDEN_EXEMPT:
+                R.ok(m, st, f"{name}: {_WIDEN_EXEMPT[name]}")
+                continue
+            x = tgt.value.id
+            srcs = {x}
+            for v in defs.get(x, []):
+                # x = y.copy() / y.nameless_copy() / y
+                while isinstance(v, ast.Call) and isinstance(v.func, ast.Attribute) and v.func.attr in ("copy", "nameless_copy") and not v.args:
+                    v = v.func.value
+                if dotted(v):
+                    srcs.add(dotted(v))
+            facts = _facts(st)
+            ok = bool(srcs & pieces) or any(
+                f in (f"{s_}.lower_bound <= {s_}.upper_bound", f"{s_}.upper_bound >= {s_}.lower_bound", f"{s_}.is_integer", f"not {s_}.is_interval") for s_ in srcs for f in facts
+            )
+            R.check(
+                ok,
+                m,
+                st,
+                f"{name}: width overwritten on an object that cannot wrap",
+                f"StridedInterval.{name} overwrites the width of `{x}` (from {sorted(srcs - {x}) or [x]}) with no dominating fact that "
+                f"it does not wrap past zero and without it being a south-pole piece (facts: {facts[-2:]}): <3>7[1, 0] is "
+                f"{{1, 0}}, the same bounds at 5 bits are {{1, 8, 15, 22, 29}}",
+                construct=f"{name}: width of an interval object overwritten",
+            )
+    R.need(n >= 3, f"only {n} width overwrites found")
